@@ -35,8 +35,8 @@ ANCHORS = [
 RECVS = ["fresh", "lazyrows", "lazycols+2", "lazycols-1", "lazychain", "ufunc", "astype", "deepcopy", "pickle", "copy-of-lazy", "readonly", "saveload", "concat", "fromnumpy", "fromnumpy-F", "tonumpy-called", "subclass", "was-argument", "byteswapped", "unsafe", "ctype-alias", "own-shape", "lazytail-parent-used", "lens-refilled", "rslice-result", "buffer-subclass"]
 FLOOR_TAGS = ["recv:" + r_ for r_ in RECVS] + ["mask-as-list", "r:int", "r:slice+1", "r:slice+k", "r:slice-", "r:list", "r:array", "r:mask", "r:ell",
               "c:none", "c:int+", "c:int-", "c:slice+1", "c:slice+k", "c:slice-",
-              "must-refuse", "sel-has-empty-row", "ellipsis-padded", "e-first", "e-last", "e-mid", "e-consec", "allempty", "norows"]
-FLOOR_MONITORS = ["c02:model-compare", "c02:refusal", "c02:arguments-unchanged", "c02:after-refusal", "c02:index-object-reused", "c02:refusal-on-derived", "c02:ask-again-after-read", "c02:second-question"]
+              "must-refuse", "sel-has-empty-row", "ellipsis-padded", "pairs:1d", "pairs:outer", "pairs:2d", "pairs:row-int", "e-first", "e-last", "e-mid", "e-consec", "allempty", "norows"]
+FLOOR_MONITORS = ["c02:model-compare", "c02:refusal", "c02:arguments-unchanged", "c02:after-refusal", "c02:index-object-reused", "c02:refusal-on-derived", "c02:ask-again-after-read", "c02:second-question", "c02:pairs"]
 FP_STRICT = True       # a floating-point event inside the library that the dense computation does not have is a violation (shard.FpMonitor)
 N_RANDOM = {"quick": 12000, "thorough": 400000}
 
@@ -242,7 +242,115 @@ def observe(x):
     return "??" + type(x).__name__, x
 
 
+def pairs_model(lens, R, C):
+    """numpy's rule for two integer index arrays: they are broadcast against each other, entry k of the result is cell (R[k], C[k]);
+    -> (result shape, list of (row, col) with non-negative numbers) or model.Refused"""
+    n = len(lens)
+    b = np.broadcast(np.asarray(R), np.asarray(C))
+    cells = []
+    for r, c in b:
+        r, c = int(r), int(c)
+        if not -n <= r < n:
+            raise model.Refused("row %d of %d" % (r, n))
+        r %= n
+        if not -lens[r] <= c < lens[r]:
+            raise model.Refused("column %d of a row with %d" % (c, lens[r]))
+        cells.append((r, c % lens[r]))
+    return tuple(b.shape), cells
+
+
+def gen_pairs(rng, lens, refuse=False):
+    """(R, C, form): element pairs / an outer product of rows and columns / two matrices of equal shape, in any integer type, negative numbers included"""
+    n = len(lens)
+    cand = [i for i in range(n) if lens[i]]
+    if not cand:
+        return None
+    form = rng.choice(["1d", "1d", "outer", "outer", "2d", "row-int"])
+    idt = rng.choice(["int64", "int64", "int32", "intp", "int16", "uint8"])
+    if max(n, max(lens)) > np.iinfo(idt).max:
+        idt = "int64"
+    neg = lambda i, m: i if (rng.random() < 0.6 or idt == "uint8") else i - m
+    if form == "outer":
+        rows = rng.sample(cand, rng.randint(1, min(4, len(cand))))
+        ml = min(lens[i] for i in rows)
+        allneg = rng.random() < 0.3 and idt != "uint8"
+        cols = rng.sample(range(ml), rng.randint(1, min(3, ml)))
+        R = np.array([[neg(i, n)] for i in rows], dtype=idt)
+        C = np.array([c - ml if allneg and all(lens[i] == ml for i in rows) else c for c in cols], dtype=idt)
+        if rng.random() < 0.3:
+            C = C[None, :]
+    elif form == "row-int":
+        i = rng.choice(cand)
+        R = neg(i, n) if rng.random() < 0.5 else np.array(neg(i, n), dtype=idt)
+        C = np.array([neg(rng.randrange(lens[i]), lens[i]) for _ in range(rng.randint(1, 4))], dtype=idt)
+    else:
+        k = rng.randint(1, 6)
+        rr = [rng.choice(cand) for _ in range(k)]
+        cc = [rng.randrange(lens[i]) for i in rr]
+        R = np.array([neg(i, n) for i in rr], dtype=idt)
+        C = np.array([neg(c, lens[i]) for i, c in zip(rr, cc)], dtype=idt)
+        if form == "2d" and k % 2 == 0:
+            R, C = R.reshape(2, -1), C.reshape(2, -1)
+        elif form == "2d":
+            R, C = R.reshape(-1, 1), C.reshape(-1, 1)
+    if refuse:
+        # one entry names a column (or row) that does not exist: one past the end of its row -- for every row but the last the flat position still lies inside the buffer
+        Cw = np.array(C, dtype=np.int64, copy=True)
+        Rw = np.broadcast_to(np.asarray(R, dtype=np.int64), np.broadcast(np.asarray(R), Cw).shape)
+        Cb = np.broadcast_to(Cw, Rw.shape).copy()
+        pos = tuple(rng.randrange(d) for d in Cb.shape) if Cb.ndim else ()
+        r_ = int(Rw[pos]) % n
+        Cb[pos] = lens[r_] if rng.random() < 0.5 else -lens[r_] - 1
+        R, C = np.array(Rw, dtype=np.int64), Cb
+    return R, C, form
+
+
+def run_pairs(case):
+    """ra[R, C] with two integer index arrays (broadcast against each other, as in numpy)"""
+    lens, R, C = case["lens"], case["R"], case["C"]
+    recv = case.get("recv", "fresh")
+    pyrows = gen.id_rows(lens)
+    flat = np.array([v for r in pyrows for v in r], dtype=np.int64)
+    tags = ["pairs:" + case.get("form", "1d"), "recv:" + recv, "r:array", "c:array"] + gen.empty_placement(lens)
+    try:
+        shape, cells = pairs_model(lens, R, C)
+        exp = np.array([pyrows[i][j] for i, j in cells], dtype=np.int64).reshape(shape)
+        refused = False
+    except model.Refused:
+        exp, refused = None, True
+        tags.append("must-refuse")
+    ra, parent = build_receiver(recv, flat, lens)
+    before = [np.array(x, copy=True) if isinstance(x, np.ndarray) else None for x in (R, C)]
+    out = attempt(lambda: ra[R, C])
+    CTX.tick("c02:pairs", not refused)
+    CTX.tick("c02:arguments-unchanged")
+    for x, b4 in zip((R, C), before):
+        if b4 is not None and not (x.shape == b4.shape and np.array_equal(x, b4)):
+            return violated("ra[R, C] modified the caller's index array: %s -> %s" % (short(b4), short(x)), tags + ["argument-mutated"])
+    desc = "ra[%s, %s] on rows of lengths %s" % (short(R, 80), short(C, 80), lens)
+    if refused:
+        if recv == "unsafe":
+            return undefined("refusals are switched off for this receiver (safe_mode=False)", tags)
+        CTX.tick("c02:refusal")
+        if out.ok:
+            return violated("%s names a cell that does not exist and must be refused, but returned %s" % (desc, short(out.value)), tags, got=short(out.value), expected="refusal")
+        if peek(ra) != pyrows:
+            return violated("after the refused %s the array reads %s" % (desc, short(peek(ra), 200)), tags + ["changed-by-refused-index"])
+        return held(tags, len(lens) >= 2)
+    CTX.tick("c02:model-compare")
+    if not out.ok:
+        return violated("%s raised %s: %s" % (desc, type(out.exc).__name__, out.exc), tags, got=repr(out), expected=exp.tolist())
+    g = out.value
+    if not isinstance(g, (np.ndarray, np.generic)) or np.asarray(g).shape != exp.shape or not np.array_equal(np.asarray(g), exp):
+        return violated("%s gave %s, cell by cell it is %s" % (desc, short(g), short(exp)), tags, got=short(g), expected=exp.tolist())
+    if peek(ra) != pyrows or (parent is not None and False):
+        return violated("reading %s changed the array" % desc, tags + ["read-mutates"])
+    return held(tags, len(lens) >= 2 and exp.size >= 2)
+
+
 def run(case):
+    if case.get("kind") == "pairs":
+        return run_pairs(case)
     lens, rs, cs, has_cs = case["lens"], case["rs"], case["cs"], case["has_cs"]
     recv = case.get("recv", "fresh")
     pyrows = gen.id_rows(lens)
@@ -385,6 +493,8 @@ def directed():
         for j, recv in enumerate(RECVS[1:]):
             if j < 4 or (k + j) % 3 == 0:
                 yield dict(c, recv=recv)
+    for c in pairs_directed():
+        yield c
     for c in longrow_cases():
         yield c
     for c in tall_narrow_cases():
@@ -674,7 +784,30 @@ def random_selector(rng, n, allow_oob=True):
     return Ellipsis
 
 
+def pairs_case(rng, lens, recv="fresh", refuse=False):
+    g = gen_pairs(rng, lens, refuse)
+    if g is None:
+        return None
+    return {"kind": "pairs", "lens": list(lens), "R": g[0], "C": g[1], "form": g[2], "recv": recv}
+
+
+def pairs_directed():
+    import random
+    rng = random.Random(2222)
+    for lens in ([3, 2, 4, 1, 2], [2, 0, 3], [1, 1, 1], [4], [0, 5, 0, 2], [3, 3, 3]):
+        for recv in ("fresh", "lazyrows", "lazycols+2", "lazychain", "unsafe", "rslice-result"):
+            for k in range(6):
+                c = pairs_case(rng, lens, recv, refuse=(k == 5))
+                if c:
+                    yield c
+
+
 def random_case(rng, tier):
+    if rng.random() < 0.06:
+        lens_, _ = gen.length_vector(rng, tier)
+        c_ = pairs_case(rng, lens_, rng.choice(RECVS) if rng.random() < 0.4 else "fresh", refuse=rng.random() < 0.25)
+        if c_:
+            return c_
     lens, _ = gen.length_vector(rng, tier)
     n = len(lens)
     rs = random_selector(rng, n)
@@ -704,6 +837,8 @@ def random_case(rng, tier):
 
 def classify(case, res):
     """known-finding mechanisms of DESIGN section 6 (both are 'fixed': they suppress nothing)"""
+    if case.get("kind") == "pairs":
+        return None
     cs, lens = case["cs"], case["lens"]
     if not case["has_cs"]:
         return None
